@@ -8,7 +8,7 @@ import ast
 from sa import callgraph, absflow
 from sa.absflow import AbsInterp, TupleV, NONE, hull, run_function
 from sa.absint import AV, TOP, INF, const
-from sa.astutil import (call_name, calls_in, dotted, norm, walk_no_nested, last_attr,
+from sa.astutil import (effective, call_name, calls_in, dotted, norm, walk_no_nested, last_attr,
                         func_params, fact_texts, names_in, try_fold)
 from sa.loader import AnalysisError
 from sa.canon import canon
@@ -200,9 +200,10 @@ def ramp_idiom(fn):
                 continue
             d, c0 = t1.split('<')
             d2, c1 = t2.split('>')
-            if d != d2 or len(node.body) != 1 or len(inner.body) != 1 or len(inner.orelse) != 1:
+            if d != d2 or len(effective(node.body)) != 1 or len(effective(inner.body)) != 1 \
+                    or len(effective(inner.orelse)) != 1:
                 continue
-            a, b, c = node.body[0], inner.body[0], inner.orelse[0]
+            a, b, c = effective(node.body)[0], effective(inner.body)[0], effective(inner.orelse)[0]
             if not all(isinstance(x, ast.Assign) for x in (a, b, c)):
                 continue
             var = norm(a.targets[0])
